@@ -57,8 +57,18 @@ def getDist (env : Env) (s : St) (q : Req) : Option Meta :=
   | some m => some m
   | none => getDistIn env.univ s q
 
+/-- `getDist` with the request log of the index side: was the back repository asked? -/
+def getDistLog (env : Env) (s : St) (q : Req) : Option Meta × Bool :=
+  match getDistIn env.front s q with
+  | some m => (some m, false)
+  | none => (getDistIn env.univ s q, true)
+
 /-- `SolutionRepository(..., excluded_packages=upgrade)`: the recorded pins minus the released projects -/
 def solutionFront (pins : Univ) (released : List Name) : Univ := pins.filter fun p => !released.contains p.1
+
+/-- the same with the names as the user typed them after `-P` / `--upgrade-package`: they are normalised first -/
+def solutionFrontNamed (pins : Univ) (releasedAsTyped : List Name) : Univ :=
+  solutionFront pins (releasedAsTyped.map normName)
 
 def possibleOf (env : Env) (cs : List Clause) : Bool :=
   ((env.possible.find? (·.1 = sortNats cs)).map (·.2)).getD true
